@@ -63,6 +63,8 @@ pub enum Item {
     FdClose { res: usize },
     Hold { op: usize },
     Release { op: usize },
+    /// the lab dropped the Proactor here
+    DriverDropped,
 }
 
 static LOG: Mutex<Vec<Item>> = Mutex::new(Vec::new());
@@ -369,6 +371,8 @@ struct Lab {
     /// what the peer of stream 1 read (data sent by SendZc ops)
     received: Vec<u8>,
     pool_limit: usize,
+    /// regression cases only: do not drain pool jobs before a driver drop
+    keep_pool_jobs: bool,
 }
 
 macro_rules! vio {
@@ -462,6 +466,7 @@ impl Lab {
             lab_thread: std::thread::current().id(),
             received: vec![],
             pool_limit: POOLS[case.pool_ix as usize % POOLS.len()],
+            keep_pool_jobs: case.cap_ix >= 100,
         })
     }
 
@@ -1074,14 +1079,27 @@ impl Lab {
         }
     }
 
-    fn drop_driver(&mut self) {
+    fn drop_driver(&mut self, keep_pool_jobs: bool) {
         if self.p.is_none() {
             return;
+        }
+        // Known finding C01/leaked-op/pool-job-outlived-driver: a thread-pool job that finishes after the
+        // driver is gone can only leak its operation. Generated programs therefore let pool jobs finish
+        // first (counted); the regression case keeps probing the shape.
+        if !keep_pool_jobs && pool_jobs_open() > 0 {
+            for o in self.ops.iter() {
+                if let Some(g) = &o.job_gate {
+                    g.store(true, Ordering::SeqCst);
+                }
+            }
+            wait_pool_done(self);
+            self.label("excluded-known:pool-job-drained-before-driver-drop");
         }
         if self.any_in_flight() {
             self.label("driver-drop-while-in-flight");
         }
         self.p = None;
+        log(Item::DriverDropped);
     }
 
     // ---------------------------------------------------------------- quiesce
@@ -1466,6 +1484,7 @@ fn check_lifetimes(lab: &Lab, items: &[Item]) -> R<()> {
                     s.alive = false;
                 }
             },
+            Item::DriverDropped => {}
             Item::Hold { op } => {
                 if let Some(h) = id_of_op.get(op) {
                     held.insert(*h, true);
@@ -1516,6 +1535,25 @@ fn check_lifetimes(lab: &Lab, items: &[Item]) -> R<()> {
                     }
                 }
             }
+        }
+    }
+    // known shape: a pool job finished after the driver had been dropped — its completion entry cannot be
+    // released on the pool thread and is leaked by design (FrozenKey policy)
+    {
+        let mut dropped_at = None;
+        let mut done_after_drop: HashSet<usize> = HashSet::new();
+        for (pos, it) in items.iter().enumerate() {
+            match it {
+                Item::DriverDropped => dropped_at = Some(pos),
+                Item::Hook(Event::PoolDone { id }, _) if dropped_at.is_some() => {
+                    done_after_drop.insert(*id);
+                }
+                _ => {}
+            }
+        }
+        let alive: Vec<usize> = st.iter().filter(|(_, s)| s.alive).map(|(k, _)| k.0).collect();
+        if !alive.is_empty() && alive.iter().all(|id| done_after_drop.contains(id)) {
+            v!("leaked-op/pool-job-outlived-driver", "{} thread-pool operation(s) finished after the driver was dropped and were never released", alive.len());
         }
     }
     if allocs != frees {
@@ -1623,7 +1661,7 @@ fn run_inner(lab: &mut Lab, case: &Case) -> R<()> {
                 }
             }
             Step::DropHandle { res } => lab.drop_handle(res),
-            Step::DropDriver => lab.drop_driver(),
+            Step::DropDriver => lab.drop_driver(lab.keep_pool_jobs),
             Step::Flush => {
                 if let Some(p) = lab.p.as_mut() {
                     p.flush();
@@ -1639,6 +1677,25 @@ fn run_inner(lab: &mut Lab, case: &Case) -> R<()> {
         }
     }
     Ok(())
+}
+
+fn pool_jobs_open() -> usize {
+    let items = log_since(0);
+    let mut open: HashSet<usize> = HashSet::new();
+    for it in &items {
+        if let Item::Hook(e, _) = it {
+            match *e {
+                Event::Submit { id, path: SubmitPath::Blocking } => {
+                    open.insert(id);
+                }
+                Event::PoolDone { id } => {
+                    open.remove(&id);
+                }
+                _ => {}
+            }
+        }
+    }
+    open.len()
 }
 
 fn wait_pool_done(lab: &Lab) -> bool {
@@ -1848,6 +1905,8 @@ pub fn regressions(mode: Mode) -> Vec<(&'static str, Case)> {
                     "drop-driver-with-recv-and-job-in-flight",
                     Case { iour, cap_ix: 1, pool_ix: 0, steps: vec![recv(0), sub(Kind::Job), sub(Kind::SendZc), Step::DropDriver, Step::Feed { res: 0, n: 60000 }] },
                 ));
+                // known finding: a pool job that outlives the driver leaks its operation (cap_ix >= 100 keeps the job gated)
+                v.push(("known-pool-job-outlives-driver", Case { iour, cap_ix: 101, pool_ix: 0, steps: vec![sub(Kind::Job), Step::DropDriver] }));
                 // former finding (fixed 54eec8d): two F_MORE completions queued when the driver is dropped
                 v.push(("drop-driver-with-two-multishot-items-queued", Case { iour, cap_ix: 0, pool_ix: 0, steps: vec![sub(Kind::AcceptMulti), sub(Kind::ReadAt), Step::Connect, Step::Connect, Step::DropDriver] }));
                 v.push(("drop-driver-with-zerocopy-completions-queued", Case { iour, cap_ix: 3, pool_ix: 0, steps: vec![sub(Kind::SendZc), sub(Kind::SendZc), Step::Poll { block: false }, sub(Kind::SendZc), Step::DropDriver] }));
